@@ -1314,7 +1314,11 @@ fn mv(v: &Value) -> String {
     format!("(MV {} (FL {b} {u} {d}))", coq_value(v))
 }
 
-const CONCRETE: [(&str, &str, usize); 10] = [
+const CONCRETE: [(&str, &str, usize); 14] = [
+    ("CTake", "↙", 1),
+    ("CTake", "↙", 1),
+    ("CDrop", "↘", 1),
+    ("CDrop", "↘", 1),
     ("CReverse", "⇌", 1),
     ("CFirst", "⊢", 1),
     ("CLast", "⊣", 1),
@@ -1326,7 +1330,11 @@ const CONCRETE: [(&str, &str, usize); 10] = [
     ("CCouple", "⊟", 2),
     ("CRange", "⇡", 1),
 ];
-const RULES: [(&str, &str, usize); 17] = [
+const RULES: [(&str, &str, usize); 21] = [
+    ("RKeep", "▽", 2),
+    ("RKeep", "▽", 2),
+    ("RRotate", "↻", 2),
+    ("RRotate", "↻", 2),
     ("RSelect", "⊏", 2),
     ("RSelect", "⊏", 2),
     ("RClassify", "⊛", 1),
@@ -1391,7 +1399,55 @@ fn tie(n: usize, seed: u64) {
         } else {
             args.push(tie_arg(&mut r, kind, &shape));
         }
-        if name == "RSelect" {
+        let mut coq_name = name.to_string();
+        let mut src = src.to_string();
+        if name == "CTake" || name == "CDrop" {
+            // one integer amount written into the program; the array has rank >= 1
+            let rows = 1 + r.below(4);
+            let mut sh = vec![rows];
+            if r.chance(1, 3) {
+                sh.push(r.below(3));
+            }
+            let k = r.below(5);
+            let from = tie_arg(&mut r, k, &sh);
+            if from.rank() == 0 {
+                continue;
+            }
+            let n = from.row_count() as i64;
+            let z = r.range(-n - 1, n + 1);
+            coq_name = format!("({name} ({z})%Z)");
+            src = format!("{src} {}", lit_num(z as f64));
+            args.clear();
+            args.push(from);
+        } else if name == "RKeep" || name == "RRotate" {
+            let rows = 1 + r.below(4);
+            let mut sh = vec![rows];
+            if r.chance(1, 4) {
+                sh.push(1 + r.below(2));
+            }
+            if r.chance(1, 8) {
+                sh.clear();
+            }
+            let k = r.below(5);
+            let from = tie_arg(&mut r, k, &sh);
+            let n = from.row_count();
+            let amount = if name == "RKeep" {
+                if from.rank() == 0 || r.chance(1, 3) {
+                    byte(&[], &[r.below(4) as u8])
+                } else {
+                    byte(&[n], &(0..n).map(|_| r.below(3) as u8).collect::<Vec<_>>())
+                }
+            } else {
+                match r.below(6) {
+                    0 => num(&[0], &[]),
+                    1 => num(&[1], &[r.range(-3, 3) as f64]),
+                    _ => num(&[], &[r.range(-3, 3) as f64]),
+                }
+            };
+            args.clear();
+            args.push(amount);
+            args.push(from);
+        } else if name == "RSelect" {
             // [indices (top); selected-from array]: monotone index lists mixing signs, rank 0 or 1
             let rows = 2 + r.below(4);
             let mut sh = vec![rows];
@@ -1446,15 +1502,16 @@ fn tie(n: usize, seed: u64) {
         }
         // stack order: last pushed = top
         let pushed: Vec<Value> = args.iter().rev().cloned().collect();
-        let out = run_prog(src, &pushed).stack;
+        let name_s = coq_name.as_str();
+        let out = run_prog(&src, &pushed).stack;
         let argstr = args.iter().map(mv).collect::<Vec<_>>().join(";");
         let show = format!("{src} {}", args.iter().map(show_short).collect::<Vec<_>>().join(" | "));
         match (&out, concrete) {
             (Ok(st), true) if st.len() == 1 => {
-                println!("{{\"k\":\"c\",\"p\":{},\"coq\":{},\"show\":{},\"out\":{}}}", jstr(name), jstr(&format!("CC {name} [{argstr}] (Some {})", mv(&st[0]))), jstr(&show), jstr(&show_short(&st[0])));
+                println!("{{\"k\":\"c\",\"p\":{},\"coq\":{},\"show\":{},\"out\":{}}}", jstr(name), jstr(&format!("CC {name_s} [{argstr}] (Some {})", mv(&st[0]))), jstr(&show), jstr(&show_short(&st[0])));
             }
             (Err(e), true) if !e.starts_with("PANIC") => {
-                println!("{{\"k\":\"c\",\"p\":{},\"coq\":{},\"show\":{},\"out\":{}}}", jstr(name), jstr(&format!("CC {name} [{argstr}] None")), jstr(&show), jstr(e.lines().next().unwrap_or("")));
+                println!("{{\"k\":\"c\",\"p\":{},\"coq\":{},\"show\":{},\"out\":{}}}", jstr(name), jstr(&format!("CC {name_s} [{argstr}] None")), jstr(&show), jstr(e.lines().next().unwrap_or("")));
             }
             (Ok(st), false) if st.len() == 1 => {
                 println!("{{\"k\":\"r\",\"p\":{},\"coq\":{},\"show\":{},\"out\":{}}}", jstr(name), jstr(&format!("RC {name} [{argstr}] {}", mv(&st[0]))), jstr(&show), jstr(&show_short(&st[0])));
